@@ -70,8 +70,12 @@ static int disk_is(const char *c, size_t n, int exists)
 }
 
 #ifdef CRASH
+static int g_write_failed;
 static void crash_oracle(void)
 {
+#ifdef KF_truncate_then_write
+    if (g_write_failed) return;      /* known finding: a failing write leaves the truncated/partial file behind (only its reporting is still required) */
+#endif
     /* C20: at the instant the process dies the file holds the complete old or the complete new content */
     /* an absent file and an empty file are the same to the dynamic loader */
     int is_old = (d_oldlen == 0) ? (!d_exists || d_len == 0) : disk_is(d_old, d_oldlen, 1);
@@ -140,6 +144,7 @@ int fprintf(FILE *fp, const char *fmt, ...)
     boundary();
 #ifdef CRASH
     if (IN.fail_write & 1) {                                     /* ENOSPC / EIO / EDQUOT after a partial write */
+        g_write_failed = 1;
         size_t k = IN.partial % (n + 1);
         for (size_t i = 0; i < k; i++) if (d_len < CAP) d_disk[d_len++] = s[i];
         errno = ENOSPC;
@@ -236,7 +241,8 @@ static void final_oracle(int refused)
     size_t n = d_oldlen;
 #ifdef CRASH
     crash_oracle();              /* also at normal termination / error exit */
-    if (refused && g_wopen_calls > 0) V_ASSERT(g_exit_code != 0, "C20: a failed write is reported with a non-zero exit status");
+    if (g_write_failed || ((IN.fail_open & 1) && g_wopen_calls > 0))
+        V_ASSERT(refused && g_exit_code != 0, "C20: a failed open/write of the preload file is reported with a non-zero exit status");
     return;
 #endif
     int own = g_ref_own, active = g_ref_active;
@@ -321,7 +327,6 @@ void harness(void)
     /* known finding (C20): the file is rewritten by truncate-then-write; exclude crash points and failures inside
      * that window: only runs that die before the write-open or after the close are left */
     V_ASSUME(IN.crash_at == 255 || IN.crash_at == 0);
-    V_ASSUME(!(IN.fail_write & 1));
 #endif
     g_ref_own = ref_own(d_old, d_oldlen);
     g_ref_active = ref_active_lines(d_old, d_oldlen);
